@@ -71,24 +71,9 @@ func concParallel(args []string) error {
 		}
 		return evs, nil
 	}
-	// phase 1: alone
-	line := 0
-	soloStart := make([]int, len(hists))
-	for i, ops := range hists {
-		evs, err := runHist(i+1, ops)
-		if err != nil {
-			return err
-		}
-		soloStart[i] = line + 1
-		for _, ev := range evs {
-			line++
-			ev.ID = line
-			if err := enc.Encode(tev{Event: ev, Twin: 0}); err != nil {
-				return err
-			}
-		}
-	}
-	// phase 2: in parallel, with registry traffic on the side
+	// Phase 1: in parallel, with registry traffic on the side. It runs FIRST, in a fresh
+	// process, so that first-use effects (lazily built tables, caches) happen under contention.
+	parRounds := make([][][]vh.Event, 0, *rounds)
 	for round := 0; round < *rounds; round++ {
 		results := make([][]vh.Event, len(hists))
 		errs := make([]error, *g)
@@ -141,6 +126,27 @@ func concParallel(args []string) error {
 				return e
 			}
 		}
+		parRounds = append(parRounds, results)
+	}
+	// Phase 2: alone, one after the other. Written first, so that a parallel event can name its
+	// twin by line number.
+	line := 0
+	soloStart := make([]int, len(hists))
+	for i, ops := range hists {
+		evs, err := runHist(i+1, ops)
+		if err != nil {
+			return err
+		}
+		soloStart[i] = line + 1
+		for _, ev := range evs {
+			line++
+			ev.ID = line
+			if err := enc.Encode(tev{Event: ev, Twin: 0}); err != nil {
+				return err
+			}
+		}
+	}
+	for _, results := range parRounds {
 		for i, evs := range results {
 			for j, ev := range evs {
 				line++
